@@ -1,0 +1,27 @@
+//! Hooks for deterministic simulation testing.
+//!
+//! Compiled only with `--cfg pasfmt_verif`; the shipped crate never sees this file. A test
+//! harness may install a yield callback (called at the few places where formatting threads
+//! touch process-wide state, so that a simulated scheduler can interleave them) and a CPU
+//! feature mask (which can only *hide* features the CPU really has).
+
+use std::sync::OnceLock;
+
+static YIELD: OnceLock<fn(&'static str)> = OnceLock::new();
+static FEATURE_ALLOWED: OnceLock<fn(&'static str) -> bool> = OnceLock::new();
+
+pub fn install(yield_point: fn(&'static str), feature_allowed: fn(&'static str) -> bool) -> bool {
+    YIELD.set(yield_point).is_ok() & FEATURE_ALLOWED.set(feature_allowed).is_ok()
+}
+
+#[inline]
+pub fn yield_point(tag: &'static str) {
+    if let Some(f) = YIELD.get() {
+        f(tag)
+    }
+}
+
+#[inline]
+pub fn feature_allowed(feature: &'static str) -> bool {
+    FEATURE_ALLOWED.get().map(|f| f(feature)).unwrap_or(true)
+}
